@@ -343,7 +343,13 @@ class Array:
                 self.rank,
                 self.shape,
             ) = state
-            self.labels = labels  # property, requires rank to be set already
+            if isinstance(labels, dict):  # old format: {label: axis}
+                labels_list = [None] * self.rank
+                for label, axis in labels.items():
+                    labels_list[axis] = label
+                labels = labels_list
+            self._labels = [None] * self.rank
+            self.iset_leg_labels(labels)
         else:
             raise ValueError('setstate with incompatible type of state')
 
